@@ -913,6 +913,14 @@ class C06(Prop):
                     lines.append(case_line(f'w{m}r', ('then', d, tail), inp, kind=kind))
                     lines.append(case_line(f'w{m}p', ('then', g, tail), inp, kind=kind))
                     m += 1
+        # directed: a pending error from an earlier alternative strictly between the cursor the wrapped parser ends at and the
+        # position of what it re-inserts (gen.shelter_family)
+        inp5 = inputs_all(5, [gen.A, gen.B, 99, 100]) + ' ' + inputs_lit([gen.A, gen.B, 99, 100, 90]) + ' ' + inputs_lit([gen.A, gen.B, 99, 90])
+        for wrapped, plain in gen.shelter_family():
+            kind = 'str' if m % 2 == 0 else 'slice'
+            lines.append(case_line(f'w{m}r', wrapped, inp5, kind=kind))
+            lines.append(case_line(f'w{m}p', plain, inp5, kind=kind))
+            m += 1
         return lines
 
     def group_of(self, line):
@@ -1331,6 +1339,13 @@ LEFT_REC = [
               ('just', [120]))], ('call', 0)),
     # indirect left recursion through a second definition
     ([('or', ('memo', 1, ('then', ('call', 1), ('just', [43]))), ('just', [120])), ('or', ('call', 0), ('just', [121]))], ('call', 0)),
+    # the recursive reference crosses a context boundary (with_ctx / ignore_with_ctx / then_with_ctx / map_ctx): the memo table —
+    # and with it the in-progress marker — belongs to the parse, not to the context
+    ([('or', ('memo', 1, ('then', ('withctx', ('vnat', 1), ('call', 0)), ('then', ('just', [43]), ('just', [120])))), ('just', [120]))], ('call', 0)),
+    ([('or', ('memo', 1, ('iwctx', ('empty',), ('then', ('call', 0), ('then', ('just', [43]), ('just', [120]))))), ('just', [120]))], ('call', 0)),
+    ([('or', ('withctx', ('vnat', 2), ('memo', 1, ('then', ('call', 0), ('then', ('just', [43]), ('just', [120]))))), ('just', [120]))], ('call', 0)),
+    ([('or', ('memo', 1, ('then', ('mapctx', ('ctag', 3), ('call', 0)), ('just', [43]))), ('just', [120]))], ('call', 0)),
+    ([('or', ('memo', 1, ('map', 'snd', ('twctx', ('empty',), ('then', ('call', 0), ('just', [45]))))), ('just', [120]))], ('call', 0)),
 ]
 
 
@@ -1546,7 +1561,9 @@ def deep_probes(prop, tot, fails, tier, jobs):
     import multiprocessing
     depths = [1000, 100000] if tier == 'quick' else [1000, 100000, 1000000]
     jobsl = [(pr, d, m) for pr in ('parens', 'mutual', 'pratt_prefix', 'pratt_postfix', 'pratt_infixr', 'pratt_infixl',
-                                   'parens_boxed', 'parens_rc', 'mutual_boxed', 'declared_boxed', 'pratt_parens')
+                                   'parens_boxed', 'parens_rc', 'mutual_boxed', 'declared_boxed', 'pratt_parens',
+                                   'flat_foldr', 'flat_foldr_with', 'flat_foldl', 'flat_foldl_with', 'flat_collect', 'flat_count',
+                                   'flat_sep', 'flat_plain')
              for d in depths for m in ('parse', 'check')]
     with multiprocessing.Pool(min(jobs, 8)) as pool:
         res = pool.map(_deep_worker, jobsl)
@@ -3029,8 +3046,9 @@ class C16(Prop):
                     main = ('then', main, ('ornot', hole))
             inputs = inputs_all(maxlen, [A, B, G[0], G[1]]) + ' ' + ' '.join(
                 inputs_lit([rng.choice([A, B] + G) for _ in range(rng.randint(1, 5))]) for _ in range(6))
+            ekh = 'empty' if n % 4 == 3 else 'rich'      # the zero-sized error type has fast paths of its own in with_input / add_alt
             for mode in ('parse', 'check'):
-                lines.append(f'NH h{n}{mode[0]} rich {gap} {mode} 200 {self.table_str(tab)} A {gen.render(a)} '
+                lines.append(f'NH h{n}{mode[0]} {ekh} {gap} {mode} 200 {self.table_str(tab)} A {gen.render(a)} '
                              f'B {gen.render(bsel)} M {gen.render(main)} I {inputs}'.replace('  ', ' '))
         return lines
 
